@@ -30,6 +30,7 @@ def run(ctx):
     R1 = ctx.rule('C08.R1', 'store: check_limits() precedes the insert and its exit condition proves size < limit (limit>0)')
     R2 = ctx.rule('C08.R2', 'check_limits: expired entries are evicted before LRU ones; LRU victim is taken from the end opposite to insertion')
     R3 = ctx.rule('C08.R3', 'size / triggers_count change exactly with primary / trigger-list membership')
+    R5 = ctx.rule('C08.R5', 'shared-memory pressure is judged by the largest allocatable chunk: not_enough_memory -> shmem_control::max_available -> buddy_allocator::max_free_chunk (a fragmented segment with many small free pages counts as full)')
     R4 = ctx.rule('C08.R4', 'bad_alloc while linking a new entry clears the whole cache (no half-linked entry survives)')
 
     SIZE, LIMIT = 'this.f:%s::size' % MC, 'this.f:%s::limit' % MC
@@ -211,7 +212,30 @@ def run(ctx):
             inside = all(f.contains(trys[0], i) for i in f.calls() if q.short_of(f.callee(i)) in ('add_trigger', 'push_front') or (q.obj_field(f, i) or '').endswith('mem_cache::timeout'))
             ctx.check(inside, R4, 'store[%s]:all-links-inside-try' % t, 'a linking step can throw outside the handler', f.loc(trys[0]))
 
+
+    # ---------------- R5 memory-pressure chain
+    nem = [f for f in P.fns.values() if f.short == 'not_enough_memory' and f.record == 'cppcms::impl::process_settings']
+    ctx.require(len(nem) == 1, 'C08.R5: process_settings::not_enough_memory not found')
+    nem = nem[0]
+    c1 = [i for i in nem.calls() if q.short_of(nem.callee(i)) in ('max_available', 'available')]
+    ctx.check([q.short_of(nem.callee(i)) for i in c1] == ['max_available'], R5, 'not_enough_memory:asks-max_available', 'memory pressure is not judged by the largest allocatable chunk', nem.where)
+    rets = [r for r in nem.returns() if nem.ret_value(r) is not None]
+    okc = len(rets) == 1
+    if okc:
+        v = nem.strip(nem.ret_value(rets[0]))
+        n_ = nem.N(v)
+        okc = n_['k'] == 'BinaryOperator' and n_.get('op') in ('<', '<=') and any(j in c1 for j in nem.calls(n_['ch'][0])) and any(q.short_of(nem.callee(j)) == 'size' for j in nem.calls(n_['ch'][1]))
+    ctx.check(okc, R5, 'not_enough_memory:chunk-below-fraction-of-segment', 'pressure test is not `largest chunk < fraction of the segment size`', nem.where)
+    for acc, want in (('max_available', 'max_free_chunk'), ('available', 'total_free_memory')):
+        fs = [f for f in P.fns.values() if f.short == acc and 'shmem_control' in (f.record or '')]
+        ctx.check(len(fs) == 1 and [q.short_of(fs[0].callee(i)) for i in fs[0].calls() if 'buddy_allocator' in (fs[0].callee(i) or '')] == [want], R5,
+                  'shmem_control::%s:delegates-to-%s' % (acc, want), '%s() does not report buddy_allocator::%s()' % (acc, want), fs[0].where if fs else nem.where)
+    mfc = [f for f in P.fns.values() if f.short == 'max_free_chunk' and 'buddy_allocator' in (f.record or '')]
+    tfm = [f for f in P.fns.values() if f.short == 'total_free_memory' and 'buddy_allocator' in (f.record or '')]
+    ctx.check(len(mfc) == 1 and len(tfm) == 1 and bool(q.loops(tfm[0])) and not [w for w in mfc[0].all_nodes() if mfc[0].N(w)['k'] == 'CompoundAssignOperator' and mfc[0].N(w).get('op') == '+='], R5,
+              'buddy_allocator:max_free_chunk-is-not-a-sum', 'max_free_chunk accumulates sizes (it would equal the total free memory)', mfc[0].where if mfc else nem.where)
     ctx.floor(R1, 2 * 5)
     ctx.floor(R2, 2 * 5)
     ctx.floor(R3, 2 * 8)
     ctx.floor(R4, 2 * 3)
+    ctx.floor(R5, 5)
